@@ -42,11 +42,17 @@ RefCases == {[fam |-> "ref", form |-> f, target |-> t] :
                 f \in {"use-href", "use-xlink", "fill-url", "stroke-url", "clip-path", "marker-end", "filter", "mask", "textpath-href", "a-href", "image-href"},
                 t \in {"before", "after"}}
 
+\* <use>: x / y translate the referenced element, whatever it is and wherever it is drawn
+UseCases == {[fam |-> "use", form |-> f, where |-> w, tkind |-> k, attrs |-> a] :
+                f \in {"href", "xlink"}, w \in {"before", "after", "defs"},
+                k \in {"rect0", "rect-off", "circle0", "circle-off", "ellipse-off", "line", "g", "symbol", "path", "text"},
+                a \in {"xy", "x", "y", "none", "neg"}}
+
 \* element vocabulary: one document per structural snippet (indices into the harness's table)
 VocabCases == {[fam |-> "vocab", snippet |-> i, wrap |-> w] : i \in 1..28, w \in {"svg", "svg-g", "fragment"}}
 
 Cases == CASE Family = "number" -> NumCases [] Family = "points" -> PointCases [] Family = "transform" -> TransformCases
-           [] Family = "ref" -> RefCases [] Family = "vocab" -> VocabCases [] OTHER -> {}
+           [] Family = "ref" -> RefCases [] Family = "use" -> UseCases [] Family = "vocab" -> VocabCases [] OTHER -> {}
 Init == c \in Cases
 Next == UNCHANGED c
 Spec == Init /\ [][Next]_c
